@@ -74,14 +74,16 @@ impl EventGen for LoopElement {
             let mut iteration = 0;
             let mut loop_var_name = String::new();
             let mut loop_count = 0;
-            let mut loop_var_value = 0.;
+            let mut loop_var_start: f64 = 0.;
+            let mut loop_var_value: f64 = 0.;
             let mut loop_step = 1.;
             if let LoopType::Repeat(count) = &loop_def.loop_type {
                 loop_count = eval_attr(count, context)?.parse()?;
             }
             if let Some((loop_var, start, step)) = loop_def.loop_spec {
                 loop_var_name = eval_attr(&loop_var, context)?;
-                loop_var_value = eval_attr(&start, context)?.parse()?;
+                loop_var_start = eval_attr(&start, context)?.parse()?;
+                loop_var_value = loop_var_start;
                 loop_step = eval_attr(&step, context)?.parse()?;
             }
             loop {
@@ -96,7 +98,7 @@ impl EventGen for LoopElement {
                 }
 
                 if !loop_var_name.is_empty() {
-                    context.set_limited_var(&loop_var_name, &loop_var_value.to_string())?;
+                    context.set_limited_var(&loop_var_name, &loop_var_str(loop_var_value))?;
                 }
 
                 let (ev_list, ev_bbox) = process_events(inner_events.clone(), context)?;
@@ -106,7 +108,7 @@ impl EventGen for LoopElement {
                 }
 
                 iteration += 1;
-                loop_var_value += loop_step;
+                loop_var_value = loop_var_start + loop_step * iteration as f64;
                 if iteration > context.config.loop_limit {
                     return Err(SvgdxError::LoopLimitError(
                         iteration,
@@ -121,6 +123,17 @@ impl EventGen for LoopElement {
             }
         }
         Ok((gen_events, bbox.build()))
+    }
+}
+
+/// The loop variable as other computed numbers are written: at most three decimals,
+/// so that 0.1 + 2 * 0.1 is "0.3" rather than "0.30000000000000004".
+fn loop_var_str(value: f64) -> String {
+    let s = format!("{value:.3}");
+    let s = s.trim_end_matches('0').trim_end_matches('.');
+    match s {
+        "-0" | "" => "0".to_owned(),
+        s => s.to_owned(),
     }
 }
 
